@@ -29,7 +29,7 @@ import recordclass
 import uuid
 
 from fim.view_only_dict import ViewOnlyDict
-from ..graph.abc_property_graph import ABCPropertyGraph
+from ..graph.abc_property_graph import ABCPropertyGraph, PropertyGraphQueryException
 from .model_element import ModelElement, ElementType, TopologyException
 from .network_service import NetworkService, ServiceType
 from .interface import Interface
@@ -109,7 +109,19 @@ class Component(ModelElement):
             comp_sliver.node_id = node_id
             comp_sliver.set_properties(**kwargs)
 
-            self.topo.graph_model.add_component_sliver(parent_node_id=parent_node_id, component=comp_sliver)
+            # a component is a single construct: if writing it fails half way (e.g. one of the supplied
+            # interface node ids is already taken) do not leave part of it behind
+            try:
+                self.topo.graph_model.get_node_properties(node_id=node_id)
+                id_taken = True
+            except PropertyGraphQueryException:
+                id_taken = False
+            try:
+                self.topo.graph_model.add_component_sliver(parent_node_id=parent_node_id, component=comp_sliver)
+            except Exception:
+                if not id_taken:
+                    self.topo.graph_model.remove_component_with_nss_cps_and_links(node_id=node_id)
+                raise
         else:
             assert node_id is not None
             super().__init__(name=name, node_id=node_id, topo=topo)
